@@ -377,3 +377,55 @@ c13h2!(c13_v0_cset_unimplemented, false, K_CSET);
 c13h2!(c13_v0_cget_unimplemented, false, K_CGET);
 // @h props=C13 tier=quick cap=600 desc="v0 lock / acquire_lock / release_lock (v1-only requests on a v0 session), kind chosen by the solver" bounds="tid u64; 3 kinds"
 c13h3!(c13_v0_locks_unimplemented, 3);
+
+// ------------------------------------------------------------------ the error code of every reason
+/// `ErrorCode::from(&WorterbuchError)` (worterbuch-common/src/error.rs) for every variant of the error type that
+/// can be built here: the code an Err message carries must be the code NAMED after the reason.
+fn c13_code_of(n: u8) -> (WorterbuchError, ErrorCode) {
+    use worterbuch_common::error::AuthorizationError;
+    match n {
+        0 => (WorterbuchError::IllegalWildcard(s("p")), ErrorCode::IllegalWildcard),
+        1 => (WorterbuchError::IllegalMultiWildcard(s("p")), ErrorCode::IllegalMultiWildcard),
+        2 => (WorterbuchError::MultiWildcardAtIllegalPosition(s("p")), ErrorCode::MultiWildcardAtIllegalPosition),
+        3 => (WorterbuchError::NoSuchValue(s("k")), ErrorCode::NoSuchValue),
+        4 => (WorterbuchError::NotSubscribed, ErrorCode::NotSubscribed),
+        5 => (WorterbuchError::InvalidServerResponse(s("m")), ErrorCode::InvalidServerResponse),
+        6 => (WorterbuchError::ProtocolNegotiationFailed(3), ErrorCode::ProtocolNegotiationFailed),
+        7 => (WorterbuchError::ReadOnlyKey(s("k")), ErrorCode::ReadOnlyKey),
+        8 => (WorterbuchError::AuthorizationRequired(worterbuch_common::Privilege::Read), ErrorCode::AuthorizationRequired),
+        9 => (WorterbuchError::AlreadyAuthorized, ErrorCode::AlreadyAuthorized),
+        10 => (WorterbuchError::Unauthorized(AuthorizationError::MissingToken), ErrorCode::Unauthorized),
+        11 => (WorterbuchError::NoPubStream(7), ErrorCode::NoPubStream),
+        12 => (WorterbuchError::NotLeader, ErrorCode::NotLeader),
+        13 => (WorterbuchError::Cas, ErrorCode::Cas),
+        14 => (WorterbuchError::CasVersionMismatch, ErrorCode::CasVersionMismatch),
+        15 => (WorterbuchError::NotImplemented, ErrorCode::NotImplemented),
+        16 => (WorterbuchError::KeyIsLocked(s("k")), ErrorCode::KeyIsLocked),
+        17 => (WorterbuchError::KeyIsNotLocked(s("k")), ErrorCode::KeyIsNotLocked),
+        18 => (WorterbuchError::FeatureDisabled(s("m")), ErrorCode::FeatureDisabled),
+        19 => (WorterbuchError::ClientIdCollision(ClientId::from_u128(1)), ErrorCode::ClientIDCollision),
+        _ => (WorterbuchError::EmptyKey, ErrorCode::EmptyKey),
+    }
+}
+macro_rules! c13codes {
+    ($name:ident, $lo:expr, $hi:expr) => {
+        #[kani::proof]
+        #[kani::unwind(6)]
+        #[kani::stub(std::fmt::format, stub_format)]
+        #[kani::stub(std::mem::MaybeUninit::write, stub_mu_write)]
+        #[kani::stub(::miette::eyreish::capture_handler, stub_capture_handler)]
+        fn $name() {
+            let n: u8 = kani::any();
+            kani::assume(n >= $lo && n <= $hi);
+            let (e, want) = c13_code_of(n);
+            let got = ErrorCode::from(&e);
+            core::mem::forget(e);
+            assert!(got == want, "C13: an Err message carries the error code of its reason (ErrorCode::from maps every error to the code named after it)");
+            kani::cover!(n == $hi);
+        }
+    };
+}
+// @h props=C13 tier=quick cap=600 desc="ErrorCode::from(&WorterbuchError): reasons 0..10 (wildcards, NoSuchValue, NotSubscribed, ... Unauthorized) map to the code named after them" bounds="11 variants, chosen by the solver"
+c13codes!(c13_error_codes_a, 0, 10);
+// @h props=C13 tier=quick cap=600 desc="ErrorCode::from(&WorterbuchError): reasons 11..20 (NoPubStream ... FeatureDisabled, ClientIdCollision, EmptyKey) map to the code named after them" bounds="10 variants, chosen by the solver"
+c13codes!(c13_error_codes_b, 11, 20);
